@@ -8,7 +8,10 @@ from harness import c06_schema as S
 PROP = "C07"
 COQ = dict(imports=["Model.Schema", "Model.Diff", "Spec.C06", "Spec.C07"], in_ty="c07_in", out_ty="c07_out",
            corr="corr_C07", decide="check_C07", inclass="inclass_C07", model="model_C07")
-THEOREMS = ["C07_detects", "C07_nothing_unrelated", "C07_diff_local", "C07_nothing_unrelated_refuted", "C07_decider_sound", "C07_model_holds"]
+SUITES = {"seq": dict(imports=["Model.Schema", "Model.Diff", "Spec.C06", "Spec.C07"], in_ty="c07s_in", out_ty="c07_out",
+                      corr="corr_C07s", decide="check_C07s", inclass="inclass_C07s", model="model_C07s")}
+THEOREMS = ["C07_detects", "C07_nothing_unrelated", "C07_diff_local", "C07_nothing_unrelated_refuted", "C07_decider_sound", "C07_model_holds",
+            "C07_seq_nothing_unrelated", "C07_seq_decider_sound"]
 TRUSTED = [
     "reflect_sqlite / the type catalogue / the abstraction functions of harness/c06_schema.py, as for C06 "
     "(the C06 check compares the reflection table with really reflected tables on every run)",
@@ -24,10 +27,19 @@ ASSUME = [
     "generated (Computed) columns: a nullability change is only claimed when the changed model states nullable explicitly (the "
     "mutation does); a change of / to / from a Computed default is documented as not detected and is not in the catalogue",
     "server defaults of A and m(A) in the class dflt_ok; outside it 'nothing unrelated' is refuted (C07_nothing_unrelated_refuted)",
+    "several changes at once (suite seq): a list of catalogue mutations, each applicable where it is applied, pairwise non-interfering "
+    "(different objects, none inside another; or different properties of one column; not a foreign key added and another removed on "
+    "one table).  For these 'nothing unrelated' is proved for all lists (C07_seq_nothing_unrelated); 'every change detected' is proved "
+    "for single changes and checked case by case (decider + exact correspondence) for lists",
+    "the comparison must run to completion under every setting: an exception is a missing result, which the decider rejects",
 ]
-RULE = ("ALL ordered pairs of catalogue types of different families as a type change on one indexed column, then seeded random base schemas (every third with generated columns, nullable explicit or unset; default changes include near-misses: other letter case, a surrounding blank, a trailing character) (1-4 tables as for C06) x every kind of the 12-kind mutation catalogue that can be instantiated on "
+RULE = ("ALL ordered pairs of catalogue types of different families as a type change on one indexed column, then seeded random base schemas (every fifth with collations on string columns, every third with generated columns, nullable explicit or unset; default changes include near-misses: other letter case, a surrounding blank, a trailing character) (1-4 tables as for C06) x every kind of the 12-kind mutation catalogue that can be instantiated on "
         "the base (random instance per kind); each case compares db(A) with m(A) under the 4 compare_type x compare_server_default "
-        "settings. every case is non-trivial (a real change is applied); distinct by the encoded (A, m)")
+        "settings. every case is non-trivial (a real change is applied); distinct by the encoded (A, m). "
+        "Then lists of 2-7 changes at once on random bases in four shapes: same_table (2-5 changes inside one table, half with a removed "
+        "column together with at least as many added ones), drop_target (a table removed together with every foreign key pointing at it "
+        "from tables that stay, plus up to 2 more changes), add_target (a table added together with a foreign key to it from a table that "
+        "was there), mixed")
 EXHAUSTIVE = {"quick": False, "thorough": False}
 CASE_TIMEOUT = 60
 DESIGN_REF = "DESIGN.md section 5 C07"
@@ -48,6 +60,8 @@ def _cases(rnd, nbase):
             S.add_computed(rnd, A, 0.7)        # generated columns (nullable explicit or left unset)
         if k % 2 == 0:
             S.decorate(rnd, A)                 # CHECK constraints / expression indexes: invisible to the comparison
+        if k % 5 == 1:
+            S.add_collations(random.Random(k), [A])      # string columns with a collation: invisible as well
         for kind in S.MUT_KINDS:
             m = S.gen_mutation(rnd, A, kind)
             if m is not None:
@@ -57,22 +71,43 @@ def _cases(rnd, nbase):
                 yield h
 
 
+SHAPES = ["same_table", "drop_target", "add_target", "mixed"]
+
+
+def _seq_cases(rnd, n):
+    count = {s: 0 for s in SHAPES}
+    tries = 0
+    while sum(count.values()) < n and tries < 40 * n:
+        tries += 1
+        A = S.gen_schema(rnd)
+        if tries % 3 == 0:
+            S.add_computed(rnd, A, 0.7)
+        shape = min(SHAPES, key=lambda s: (count[s], SHAPES.index(s)))      # the four shapes in equal numbers
+        ms = S.gen_mut_seq(rnd, A, shape)
+        if ms is None: continue
+        count[shape] += 1
+        yield {"A": A, "ms": ms, "shape": shape}
+
+
 def generate(tier, seed):
     rnd = random.Random(seed * 7919 + 7)
     for A, y in S.type_matrix(False):         # every ordered pair of catalogue types of different (non-synonymous) families
         yield {"A": A, "m": ["change_type", 0, 1, y]}
+    yield from _seq_cases(random.Random(seed * 31337 + 7), 400 if tier == "quick" else 4000)
     yield from _cases(rnd, 300 if tier == "quick" else 4000)
 
 
 def search(tier, seed):
     rnd = random.Random(seed * 104729 + 7)
+    yield from _seq_cases(rnd, 400)
     yield from _cases(rnd, 600)
 
 
 def run_case(h):
     S.quiet_logs()
-    A, m = h["A"], h["m"]
-    B = S.apply_mutation(A, m)
+    A = h["A"]
+    seq = "ms" in h
+    B = S.apply_mutations(A, h["ms"]) if seq else S.apply_mutation(A, h["m"])
     if "deco_seed" in h:
         S.decorate(random.Random(h["deco_seed"]), B, 0.7)
     mdB = S.build_metadata(B)
@@ -81,14 +116,36 @@ def run_case(h):
     try:
         with e.connect() as conn:
             for cfg in S.ALL_CFGS:
-                _, ms = S.compare(conn, mdB, cfg)
+                try:
+                    _, ms = S.compare(conn, mdB, cfg)
+                except Exception as ex:          # observable: no result under this setting (the decider wants all four)
+                    outs.append({"cfg": list(cfg), "error": type(ex).__name__})
+                    continue
                 ops = S.abs_ops(ms.upgrade_ops, conn.dialect)
                 outs.append({"cfg": list(cfg), "ops": ops})
                 qs.append("(%s, %s)" % (S.q_cfg(cfg), S.q_ops(ops)))
     finally:
         e.dispose()
-    cin = "(%s, %s)" % (S.q_schema(A), S.q_mut(m))
-    return dict(cin=cin, cout=cf.lst(qs), out=outs, nontrivial=True, shape=m[0])
+    if seq:
+        cin = "(%s, %s)" % (S.q_schema(A), cf.lst(S.q_mut(m) for m in h["ms"]))
+        return dict(cin=cin, cout=cf.lst(qs), out=outs, nontrivial=True, shape="seq_" + h["shape"], suite="seq")
+    cin = "(%s, %s)" % (S.q_schema(A), S.q_mut(h["m"]))
+    return dict(cin=cin, cout=cf.lst(qs), out=outs, nontrivial=True, shape=h["m"][0])
+
+
+def canary(human, rec):
+    """corrupted observations the decider must reject: the change not reported under the setting that looks for everything,
+    an operation on an object nobody touched, one compare setting without a result (as after an exception)"""
+    outs = rec.get("out") or []
+    if len(outs) != 4 or any("ops" not in o for o in outs):
+        return []
+    enc = lambda rs: cf.lst("(%s, %s)" % (S.q_cfg(tuple(o["cfg"])), S.q_ops(o["ops"])) for o in rs)
+    full = [k for k, o in enumerate(outs) if all(o["cfg"])][0]
+    bad = [enc([dict(o, ops=[]) if k == full else o for k, o in enumerate(outs)]),
+           enc([dict(o, ops=o["ops"] + [["drop_table", 9999]]) if k == 0 else o for k, o in enumerate(outs)]),
+           enc([dict(o, ops=o["ops"] + [["drop_column", 9999, 1]]) if k == 3 else o for k, o in enumerate(outs)]),
+           enc(outs[:-1])]
+    return bad
 
 
 def classify(human, out):
